@@ -77,17 +77,19 @@ func (gcv *GlobalConfigurationValidator) getValidListeners(listeners []conf_v1.L
 		}
 		gcv.updatePortProtocolCombinations(ipv4PortProtocolCombinations, ipv4, l)
 		gcv.updatePortProtocolCombinations(ipv6PortProtocolCombinations, ipv6, l)
+		listenerNames.Insert(l.Name)
 		validListeners = append(validListeners, l)
 	}
 	return validListeners, allErrs
 }
 
-// checkForDuplicateName checks if the listener name is unique.
+// checkForDuplicateName checks if the listener name is unique among the listeners accepted so far.
+// The name is recorded by the caller only once the listener is accepted, so that a listener dropped
+// for an ip:port conflict does not disable a later valid listener with the same name.
 func (gcv *GlobalConfigurationValidator) checkForDuplicateName(listenerNames sets.Set[string], listener conf_v1.Listener, idxPath *field.Path) *field.Error {
 	if listenerNames.Has(listener.Name) {
 		return field.Duplicate(idxPath.Child("name"), listener.Name)
 	}
-	listenerNames.Insert(listener.Name)
 	return nil
 }
 
